@@ -186,6 +186,10 @@ def ev(F, x, selfobj=None, lazy=False, idxmode="series"):
         return v.isin(list(x["vals"]))
     if e == "fillna":
         return v.fillna(x["v"])
+    if e == "replace":
+        return v.replace(x["k"], x["v"])
+    if e == "round":
+        return v.round()
     if e == "clip":
         return v.clip(lower=None if x["lo"] == NA else x["lo"], upper=None if x["hi"] == NA else x["hi"])
     if e == "map":
